@@ -943,6 +943,7 @@ func checkC04(w *World, c *Check, tier string) {
 		npanic += cnt
 	}
 	checkNilFields(w, c, D)
+	checkFollowUpPanics(w, c, inD)
 	c.ok("C04.panic", "scan", "-", fmt.Sprintf("%d functions scanned for explicit panics, single-result assertions, integer division, slice-to-array conversion; %d found", len(D), npanic))
 
 	// ---- loops ----
@@ -1854,4 +1855,48 @@ func freshNonNil(v ssa.Value) bool {
 		}
 	}
 	return false
+}
+
+// checkFollowUpPanics (C04.follow): "any value a decoder does return can then be … re-encoded in both codecs and
+// formatted without panicking". The closure of the encoders and formatters (MarshalJSON, MarshalText, MarshalBinary,
+// GobEncode, String, Format, found by name and signature) is scanned for the constructs that panic on a value the
+// decoders can build: an explicit panic and a single-result type assertion (the decoders decide the Go type from the
+// document's "type" member alone, so an *Object whose type says "IRI" is a value they return). Functions that are also
+// part of the decode closure are already covered by C04.panic.
+func checkFollowUpPanics(w *World, c *Check, inD map[*ssa.Function]bool) {
+	var entries []*ssa.Function
+	for _, f := range w.Funcs {
+		if f.Parent() != nil || f.Synthetic != "" || f.Origin() != nil {
+			continue
+		}
+		switch f.Name() {
+		case "MarshalJSON", "MarshalText", "MarshalBinary", "GobEncode", "String", "Format", "GoString":
+			entries = append(entries, f)
+		}
+	}
+	E := w.Reach(entries, nil)
+	n := 0
+	for _, f := range E {
+		if inD[f] {
+			continue
+		}
+		cnt := 0
+		for _, b := range f.Blocks {
+			for _, in := range b.Instrs {
+				switch x := in.(type) {
+				case *ssa.Panic:
+					cnt++
+					c.bad("C04.follow", fmt.Sprintf("%s:panic#%d", funcName(f), cnt), w.InstrPos(in), funcName(f)+" (reachable from an encoder or formatter) panics explicitly")
+				case *ssa.TypeAssert:
+					if !x.CommaOk {
+						cnt++
+						c.bad("C04.follow", fmt.Sprintf("%s:assert#%d", funcName(f), cnt), w.InstrPos(in), fmt.Sprintf("%s (reachable from an encoder or formatter) uses the single-result type assertion .(%s): a decoded value whose Go type is not the one its type name suggests makes re-encoding panic", funcName(f), typeName(x.AssertedType)))
+					}
+				}
+			}
+		}
+		n += cnt
+	}
+	c.stat("encode_format_closure_functions", len(E))
+	c.ok("C04.follow", "scan", "-", fmt.Sprintf("%d encoder/formatter entry points, %d functions in their closure scanned for explicit panics and single-result assertions; %d found", len(entries), len(E), n))
 }
